@@ -7,7 +7,7 @@ use crate::rng::Rng;
 use serde_json::json;
 use tls_parser::*;
 
-pub const RULE: &str = "complete sweep of 25 states x 2 directions x {18 handshake kinds (ClientHello split by session-id presence), ChangeCipherSpec, all 65536 (level,description) alerts, application data, heartbeat}; plus 64 random payloads per non-alert kind and cell, the documented flows as explicit sequences, BFS reachability from None and random walks in lock-step with the reference relation. distinct_nontrivial counts distinct (family, state, direction, kind class, outcome) tuples observed";
+pub const RULE: &str = "complete sweep of 25 states x 2 directions x {18 handshake kinds (ClientHello split by session-id presence), ChangeCipherSpec, all 65536 (level,description) alerts, application data, heartbeat}; plus 64 random payloads per non-alert kind and cell, the full cross product of meaningful field values of the hello / HelloRetryRequest / KeyUpdate / CertificateStatus / heartbeat messages per cell (15 versions x 8 session-id forms (absent; present with 0, 1, 32, 33, 255, 256, 70000 bytes) x 4 compressions x 13 cipher classes x 6 extension blocks x 5 randoms for ServerHello, similarly for the others), the documented flows as explicit sequences, BFS reachability from None and random walks in lock-step with the reference relation. distinct_nontrivial counts distinct (family, state, direction, kind class, outcome) tuples observed";
 pub const ASSUMPTIONS: &[&str] = &[
     "reference relation is DESIGN.md appendix A.1, written from the property text; cells the text leaves open (server-side CCS after ClientKeyExchange, CCS direction on resumption, HelloRequest from the client) carry an allowed set",
     "ClientHello with session_id = Some(empty slice) counts as 'session id present' (Option presence), although the parser never produces it",
@@ -433,6 +433,116 @@ pub fn run(ctx: &mut Ctx) {
         }
     });
     ctx.mark_exhaustive("state x direction x message kind (alerts: all 65536 level/description pairs)");
+
+    // ------------------------------------------------ content matrix: for the messages whose fields carry protocol meaning
+    // (hellos, HelloRetryRequest, KeyUpdate, Heartbeat, CertificateStatus, ClientKeyExchange), the FULL cross
+    // product of meaningful field values (versions, session-id presence / length, compression, cipher classes,
+    // extension blocks naming other versions, RFC-special randoms) per (state, direction): the result must be the
+    // same for every combination (and allowed by the model) — conjunctions of several field values included
+    ctx.floor("matrix.calls", 50 * 100_000);
+    ctx.sweep("content-matrix", 50, |ctx, idx| {
+        use TlsMessageHandshake as H;
+        let s = STATES[(idx / 2) as usize];
+        let to_server = idx % 2 == 0;
+        const V: [u16; 15] = [0x0000, 0x0002, 0x0200, 0x0300, 0x0301, 0x0302, 0x0303, 0x0304, 0x7f12, 0x7f17, 0x7f1c, 0xfeff, 0xfefd, 0x0101, 0xffff];
+        const X: [u16; 13] = [0x0000, 0x00ff, 0x1301, 0x1302, 0x1303, 0x1304, 0x1305, 0xc02f, 0x00c6, 0xe051, 0x5600, 0x0a0a, 0xffff];
+        const C: [u8; 4] = [0, 1, 0x40, 0xff];
+        // presence is what matters: absent, and present with lengths 0, 1, 32 and (constructed values only) 33, 255, 256, 70000
+        let sid_bytes = vec![7u8; 70000];
+        let sids: [Option<&[u8]>; 8] = [None, Some(&sid_bytes[..0]), Some(&sid_bytes[..1]), Some(&sid_bytes[..32]), Some(&sid_bytes[..33]), Some(&sid_bytes[..255]), Some(&sid_bytes[..256]), Some(&sid_bytes[..])];
+        let exts: [Option<&[u8]>; 6] = [None, Some(&[]), Some(&[0, 43, 0, 2, 3, 4]), Some(&[0, 43, 0, 2, 0x7f, 0x12]), Some(&[0, 43, 0, 5, 4, 3, 4, 3, 3]), Some(&[0, 51, 0, 2, 0, 0x1d])];
+        let mut dg12 = [0x55u8; 32];
+        dg12[24..].copy_from_slice(&[0x44, 0x4f, 0x57, 0x4e, 0x47, 0x52, 0x44, 1]);
+        let mut dg11 = dg12;
+        dg11[31] = 0;
+        let zeros = [0u8; 32];
+        let plain = [0xA7u8; 32];
+        let rands: [&[u8]; 5] = [&zeros, &crate::gen::HRR_RANDOM, &dg12, &dg11, &plain];
+        let cipher_lists: [Vec<TlsCipherSuiteID>; 5] = [vec![], vec![TlsCipherSuiteID(0x1301)], vec![TlsCipherSuiteID(0xc02f), TlsCipherSuiteID(0x00ff)], vec![TlsCipherSuiteID(0x5600)], vec![TlsCipherSuiteID(0x0a0a), TlsCipherSuiteID(0x1301)]];
+        let comp_lists: [Vec<TlsCompressionID>; 3] = [vec![], vec![TlsCompressionID(0)], vec![TlsCompressionID(1), TlsCompressionID(0)]];
+        let mut calls = 0u64;
+        let mut check = |ctx: &mut Ctx, k: K, m: &TlsMessage, first: &mut Option<R>| {
+            let got = tls_state_transition(s, m, to_server);
+            calls += 1;
+            if first.is_none() {
+                judge(ctx, "content-matrix", s, k, to_server, &got, json!({"message": format!("{:.300?}", m)}));
+                ctx.shape(&("matrix", idx, k, res_str(&got)));
+                *first = Some(got);
+            } else if first.as_ref() != Some(&got) {
+                ctx.violation(
+                    format!("c08:content-dependence:{:?}:{:?}:{}", s, k, to_server),
+                    json!({"family": "content-matrix", "state": format!("{:?}", s), "kind": format!("{:?}", k), "to_server": to_server,
+                           "first": res_str(first.as_ref().unwrap()), "other": res_str(&got), "message": format!("{:.400?}", m).chars().take(600).collect::<String>()}),
+                );
+            }
+        };
+        // ServerHello (legacy layout): version x session id x compression x cipher x extensions x random
+        let mut first = None;
+        for v in V {
+            for sid in sids {
+                for c in C {
+                    for x in X {
+                        for e in exts {
+                            for rd in rands {
+                                let m = TlsMessage::Handshake(H::ServerHello(TlsServerHelloContents { version: TlsVersion(v), random: rd, session_id: sid, cipher: TlsCipherSuiteID(x), compression: TlsCompressionID(c), ext: e }));
+                                check(ctx, K::ServerHello, &m, &mut first);
+                            }
+                        }
+                    }
+                }
+            }
+        }
+        // draft-18 ServerHello and HelloRetryRequest
+        let (mut f13, mut fhrr) = (None, None);
+        for v in V {
+            for x in X {
+                for e in exts {
+                    for rd in rands {
+                        let m = TlsMessage::Handshake(H::ServerHelloV13Draft18(TlsServerHelloV13Draft18Contents { version: TlsVersion(v), random: rd, cipher: TlsCipherSuiteID(x), ext: e }));
+                        check(ctx, K::ServerHello13, &m, &mut f13);
+                    }
+                    let m = TlsMessage::Handshake(H::HelloRetryRequest(TlsHelloRetryRequestContents { version: TlsVersion(v), cipher: TlsCipherSuiteID(x), ext: e }));
+                    check(ctx, K::HelloRetryRequest, &m, &mut fhrr);
+                }
+            }
+        }
+        // ClientHello, without and with a session id
+        let (mut fno, mut fsid) = (None, None);
+        for v in V {
+            for (si, sid) in sids.iter().enumerate() {
+                for cl in &cipher_lists {
+                    for co in &comp_lists {
+                        for e in exts {
+                            for rd in rands {
+                                let m = TlsMessage::Handshake(H::ClientHello(TlsClientHelloContents { version: TlsVersion(v), random: rd, session_id: *sid, ciphers: cl.clone(), comp: co.clone(), ext: e }));
+                                if si == 0 {
+                                    check(ctx, K::ClientHelloNoSid, &m, &mut fno);
+                                } else {
+                                    check(ctx, K::ClientHelloSid, &m, &mut fsid);
+                                }
+                            }
+                        }
+                    }
+                }
+            }
+        }
+        // small domains in full
+        let (mut fku, mut fcs, mut fhb) = (None, None, None);
+        for b in 0..=255u8 {
+            check(ctx, K::KeyUpdate, &TlsMessage::Handshake(H::KeyUpdate(b)), &mut fku);
+            for blob in [&[][..], &[1, 2, 3][..]] {
+                check(ctx, K::CertificateStatus, &TlsMessage::Handshake(H::CertificateStatus(TlsCertificateStatusContents { status_type: b, blob })), &mut fcs);
+            }
+            for (pl, payload) in [(0u16, &[][..]), (3, &[1, 2, 3][..]), (0xffff, &[1][..]), (16384, &[][..])] {
+                check(ctx, K::Heartbeat, &TlsMessage::Heartbeat(TlsMessageHeartbeat { heartbeat_type: TlsHeartbeatMessageType(b), payload_len: pl, payload }), &mut fhb);
+            }
+        }
+        ctx.evals(calls);
+        ctx.add("matrix.calls", calls);
+        if ctx.wants_sample() {
+            ctx.sample(json!({"family": "content-matrix", "state": format!("{:?}", s), "to_server": to_server, "combinations": calls}));
+        }
+    });
 
     // ------------------------------------------------ documented flows (explicit sequences)
     // (kind, to_server); flows end in SessionEncrypted unless an end state is given
